@@ -451,6 +451,12 @@ class TransferFrame:
         )
         if exact_tfdf_len <= 0 or header_len + exact_tfdf_len > len(raw_frame):
             raise UslpInvalidRawPacketOrFrameLen
+        if header_type == HeaderType.TRUNCATED:
+            expected_frame_len = frame_properties.truncated_frame_len
+        else:
+            expected_frame_len = frame.header.frame_len + 1
+        if len(raw_frame) < expected_frame_len:
+            raise UslpInvalidRawPacketOrFrameLen
         current_idx = header_len
         # Skip insert zone if present
         if frame_properties.insert_zone_properties.present:
